@@ -37,7 +37,9 @@ var (
 	variantTags   = []string{"/a", "/b", "/foo/x"}
 	// weighted list of base types; index 0 is what rapid shrinks towards
 	leafBases = []string{"/any", "/number", "/string", "/name", "/foo", "/foo/bar", "/foobar", "/a",
-		"/number", "/string", "/name", "/foo", "/any", "/float64", "/time", "/duration", "/bot", "/bytes"}
+		"/number", "/string", "/name", "/foo", "/any", "/float64", "/time", "/duration", "/bot", "/bytes",
+		// name-prefix types that begin like a base type (their members are names, not numbers/strings/...)
+		"/number/n", "/string/s", "/bot/b", "/time/t"}
 	singNames = []string{"/foo/x", "/foo/bar/x", "/foobar/x", "/a/x", "/foo", "/q"}
 	// key types of different value kinds (one representative of the name kind is drawn per case)
 	keyKinds     = []string{"/number", "/string", "/float64", "/time", "/duration"}
@@ -49,12 +51,16 @@ var (
 		"/foo/bar":  {base("/foo"), base("/foobar"), base("/name"), sing("/foo/bar/x")},
 		"/foobar":   {base("/foo"), base("/name"), sing("/foobar/x")},
 		"/a":        {base("/name"), base("/any"), sing("/a/x")},
-		"/number":   {base("/float64"), base("/name"), base("/string")},
+		"/number":   {base("/float64"), base("/name"), base("/string"), base("/number/n")},
+		"/number/n": {base("/number"), base("/name")},
+		"/string/s": {base("/string"), base("/name")},
+		"/bot/b":    {base("/bot"), base("/name")},
+		"/time/t":   {base("/time"), base("/name")},
 		"/float64":  {base("/number")},
-		"/string":   {base("/bytes"), base("/name"), base("/number")},
+		"/string":   {base("/bytes"), base("/name"), base("/number"), base("/string/s")},
 		"/time":     {base("/duration"), base("/number")},
 		"/duration": {base("/time")},
-		"/bot":      {base("/any"), base("/number")},
+		"/bot":      {base("/any"), base("/number"), base("/bot/b")},
 		"/bytes":    {base("/string"), base("/name")},
 	}
 )
